@@ -43,6 +43,8 @@ LOCKDIR = f"/run/lock/ebpf.{IF}.lock"
 PROGS = f"/sys/fs/bpf/{IF}/programs"
 MBX = f"/run/ebpf/{IF}"
 FMMU = MBX + ".fmmu"
+MUTEX = f"/run/lock/ebpf.{IF}.mutex"
+STOP_FIRST = ("open:mutex", "remove:own", "lock:fmmu")   # first call of a stop sequence (new / old / bare)
 PREFIXES = ("/run/lock", "/run/ebpf", "/sys/fs/bpf")
 ALL = ("p1", "p2", "p3")
 ETH0 = 0x88A4
@@ -68,7 +70,7 @@ def _worker(conn, repo):
     choices = []
     tables = {}                  # handle -> table id
     fdkind = {}
-    S = dict(ec=None, inst=False, nexth=100, fb_eth=0x3000, fb_addr=0, root='', name='')
+    S = dict(ec=None, fl=None, inst=False, nexth=100, fb_eth=0x3000, fb_addr=0, root='', name='')
 
     def mp(path):
         path = os.fspath(path)
@@ -89,6 +91,8 @@ def _worker(conn, repo):
             return "fmmu"
         if path == LOCKDIR:
             return "lockdir"
+        if path == MUTEX:
+            return "mutex"
         if path.startswith(LOCKDIR + "/"):
             return "own"
         if path.startswith("/run/lock/"):
@@ -97,9 +101,9 @@ def _worker(conn, repo):
 
     def snapshot():
         ec = S["ec"]
-        fl = getattr(ec, "fmmu_lock_file", None)
+        fl = S["fl"] if S["fl"] is not None else getattr(ec, "fmmu_lock_file", None)
         base = getattr(fl, "base_addr", 0) if fl is not None else 0
-        return dict(eth=getattr(ec, "ethertype", 0), tab=tables.get(getattr(ec, "programs", None), "none"),
+        return dict(eth=getattr(ec, "ethertype", ETH0), tab=tables.get(getattr(ec, "programs", None), "none"),
                     win=base >> 22, inst=S["inst"])
 
     def send(*a):
@@ -166,6 +170,13 @@ def _worker(conn, repo):
             fd = guarded(call, os.open, mp(path), flags, *a)
             fdkind[fd] = k
             return fd
+
+        def close(self, fd):
+            k = fdkind.pop(fd, "?")
+            if k == "mutex":                     # closing the descriptor releases the flock
+                gate("close:mutex")
+                return guarded("close:mutex", os.close, fd)
+            return os.close(fd)
 
         def write(self, fd, data):
             k = fdkind.get(fd, "?")
@@ -339,7 +350,24 @@ def _worker(conn, repo):
         fdkind.clear()
         tables.clear()
         del obs[:], choices[:]
-        S.update(ec=None, inst=False, nexth=100, fb_eth=0x3000, fb_addr=0, root=msg[1], name=msg[2])
+        S.update(ec=None, fl=None, inst=False, nexth=100, fb_eth=0x3000, fb_addr=0, root=msg[1], name=msg[2])
+        if msg[3] == "fmmu":                 # the class on its own: FMMULock(path) ... remove()
+            try:
+                fl = L.FMMULock(FMMU)
+            except Exception as e:
+                send("exc", "start", text(e))
+                return
+            S["fl"] = fl
+            send("running", dict(addr=fl.base_addr))
+            if conn.recv()[0] != "stop":
+                os._exit(0)
+            try:
+                fl.remove()
+            except Exception as e:
+                send("exc", "stop", text(e))
+            else:
+                send("done")
+            return
         ec = E.ParallelEtherCat(IF)
         S["ec"] = ec
         cm = ec.run()
@@ -384,10 +412,11 @@ class Part:
         self.timeout = timeout
         self.begin("", "")
 
-    def begin(self, root, name):
-        """a new run in the same process"""
+    def begin(self, root, name, mode="run"):
+        """a new run in the same process; mode "run": ParallelEtherCat.run(), "fmmu": a bare FMMULock"""
         self.root = root
         self.name = name
+        self.mode = mode
         self.state = "new"          # new / gate / running / done / failed / crashed
         self.parked = None
         self.ph = "idle"
@@ -413,7 +442,7 @@ class Part:
         if k == "gate":
             self.state, self.parked = "gate", msg[1]
         elif k == "running":
-            self.state, self.parked = "running", "remove:own"
+            self.state, self.parked = "running", None      # the next gate is known after "stop"
             self.ph = "running"
             self.win = msg[1]["addr"] >> 22 if msg[1]["addr"] >= 0 else -1
         elif k == "done":
@@ -426,7 +455,7 @@ class Part:
     def ensure_parked(self):
         """bring the participant to its next gate without executing anything"""
         if self.state == "new":
-            self.conn.send(("start", self.root, self.name))
+            self.conn.send(("start", self.root, self.name, self.mode))
             self._recv()
         elif self.state == "running":
             self.conn.send(("stop",))
@@ -437,12 +466,14 @@ class Part:
         gate_before = self.parked
         self.conn.send(("go", list(probe) + ([choice] if choice else [])))
         msg = self._recv()
+        self.blocked = (msg[0] == "gate" and msg[1] == gate_before and
+                        any(o.get("res") == "blocked" for o in self.obs))
+        if self.blocked:                     # it waits in lockf / flock: nothing has happened
+            return msg
         if self.ph == "idle":
             self.ph = "starting"
         elif self.ph == "running" and self.leaving and msg[0] != "running":
             self.ph = "stopping"             # the first call of the stop sequence has run
-        self.blocked = (msg[0] == "gate" and msg[1] == gate_before and
-                        any(o.get("res") == "blocked" for o in self.obs))
         return msg
 
     def final(self):
@@ -469,7 +500,7 @@ class Part:
         self.conn.close()
 
 
-def observe(root, parts, holder):
+def observe(root, parts, holder, mutex="none"):
     """the shared state as found in the private directory"""
     ld = root + LOCKDIR
     if os.path.isdir(ld):
@@ -501,7 +532,7 @@ def observe(root, parts, holder):
     except FileNotFoundError:
         fm = dict(ex=False, len=0, bits=[])
     return dict(lockdir=lockdir, tmp=tmp, pin=pin, att=att, mbx=os.path.exists(root + MBX), fm=fm,
-                holder=holder)
+                holder=holder, mutex=mutex)
 
 
 def status(parts):
@@ -517,22 +548,29 @@ def status(parts):
     return st
 
 
-def replay(repo, base, schedule, tag="r", drain=True, timeout=10.0, pool=None):
+def replay(repo, base, schedule, tag="r", drain=True, timeout=10.0, pool=None, mode="run"):
     """run one schedule on the real code; returns dict(ev=[...], drift=n, exc={p: text}).
-    pool: list of idle worker processes kept between calls"""
+    pool: list of idle worker processes kept between calls; mode: see Part.begin.
+    A participant that would have to wait in lockf / flock reports "blocked" and stays parked at
+    that call: the schedule's step is dropped (nothing happened) and the controller goes on with
+    the next step of the schedule - no timeouts are involved."""
     root = os.path.join(base, tag)
     shutil.rmtree(root, ignore_errors=True)
     os.makedirs(root + "/run/lock")
     os.makedirs(os.path.join(root, "kernel"))
     parts = {}
     ev = []
-    st8 = dict(holder="none", drift=0, blocked=0)
+    st8 = dict(holder="none", mutex="none", drift=0, blocked=0)
+
+    def look():
+        return observe(root, parts, st8["holder"], st8["mutex"])
+
 
     def step(p, a, c, expected=True):
         w = parts.get(p)
         if w is None:
             w = parts[p] = pool.pop() if pool else Part(repo, timeout)
-            w.begin(root, p)
+            w.begin(root, p, mode)
         if a == "crash":
             if w.state == "new":
                 w.ensure_parked()
@@ -540,20 +578,21 @@ def replay(repo, base, schedule, tag="r", drain=True, timeout=10.0, pool=None):
                 st8["drift"] += 1
                 return False
             w.kill()
-            if st8["holder"] == p:
-                st8["holder"] = "none"
-            ev.append(dict(p=p, a="crash", c=0, res="killed", obs=observe(root, parts, st8["holder"]),
+            for k in ("holder", "mutex"):
+                if st8[k] == p:
+                    st8[k] = "none"
+            ev.append(dict(p=p, a="crash", c=0, res="killed", obs=look(),
                            st=status(parts)))
             return True
         if w.final():
             st8["drift"] += 1
             return False
-        if expected and a is not None and w.state == "running" and a != w.parked:
+        if expected and a is not None and w.state == "running" and a not in STOP_FIRST:
             st8["drift"] += 1                    # never leave the context unless the schedule says so
             return True
         w.ensure_parked()
         if w.final():                            # an exception before the first gate
-            ev.append(dict(p=p, a="-", c=0, res=w.exc, obs=observe(root, parts, st8["holder"]), st=status(parts)))
+            ev.append(dict(p=p, a="-", c=0, res=w.exc, obs=look(), st=status(parts)))
             return True
         g = w.parked
         if expected and a is not None and g != a:
@@ -582,11 +621,15 @@ def replay(repo, base, schedule, tag="r", drain=True, timeout=10.0, pool=None):
                 st8["holder"] = p
             elif o.get("call", "").startswith("unlock:fmmu") and o["res"] == "ok":
                 st8["holder"] = "none"
+            elif o.get("call") == "lock:mutex" and o["res"] == "ok":
+                st8["mutex"] = p
+            elif o.get("call") == "close:mutex":
+                st8["mutex"] = "none"
         if w.blocked:                            # a lock attempt that has to wait changes nothing
             st8["blocked"] += 1
             return True
         ev.append(dict(p=p, a=g, c=drawn[-1] if drawn else 0, res=res[0] if res else "?",
-                       exc=w.exc, obs=observe(root, parts, st8["holder"]), st=status(parts)))
+                       exc=w.exc, obs=look(), st=status(parts)))
         return True
 
     hang = ""
